@@ -50,6 +50,41 @@ def _helper_facts(prog: Program, fi: FuncInfo, ff, upto_index: int) -> List[Tupl
 
 def run(prog: Program, rep, tier: str) -> None:
     rep.explanation = EXPLANATION
+    # "or fail loudly" means: with LinearSolverError.  Code the solvers run on the way (helpers, logging wrappers) must not die of
+    # its own bugs instead: containers changed while iterated over raise RuntimeError in the middle of a factorisation
+    from .common import mutation_while_iterating
+    base = prog.cls("pygradflow.linear_solver.linear_solver.LinearSolver")
+    seen, todo = set(), []
+    for c in prog.all_subclasses(base, include_self=True):
+        if prog.in_scope(c):
+            todo += [(m_, 0) for m_ in c.methods.values()]
+    while todo:
+        f, d = todo.pop()
+        if f.qualname in seen:
+            continue
+        seen.add(f.qualname)
+        for n_ in own_nodes(f.node):
+            if isinstance(n_, ast.Call):
+                ts = prog.resolve_call_target(f, n_)
+                if not ts and isinstance(n_.func, ast.Attribute):
+                    # receiver of unknown type (a module-level helper object, ...): every in-scope method of that name may run
+                    ts = [g for g in prog.functions.values() if g.cls is not None and g.name == n_.func.attr and prog.in_scope(g)]
+                for t in ts:
+                    if isinstance(t, FuncInfo):
+                        todo.append((t, d + 1))
+                    elif hasattr(t, "methods") and "__init__" in t.methods:
+                        todo.append((t.methods["__init__"], d + 1))
+    n_mut = 0
+    for q in sorted(seen):
+        f = prog.functions.get(q)
+        if f is None:
+            continue
+        for lp, hit, ctxt in mutation_while_iterating(f):
+            n_mut += 1
+            rep.fail("solver-helpers-cannot-crash", f.qualname, short(hit), f"VIOLATED: `{U(hit)[:60]}` changes `{ctxt}` while it is iterated over (RuntimeError); this code runs inside "
+                     f"a linear solver's constructor / solve, so the failure is not a LinearSolverError", f.loc(hit))
+    if not n_mut:
+        rep.ok("solver-helpers-cannot-crash", f"{len(seen)} functions reachable from the linear solvers", "no container is changed while iterated over")
     base = prog.cls(LS)
     subs = [c for c in prog.all_subclasses(base, include_self=False)]
     rep.pin("linear solver classes", len(subs), 7)
